@@ -15,13 +15,16 @@
 //!       the traces of the first <sample> behaviours are concatenated into
 //!       <traces>/sample.ndjson for validation against both trace specs.
 //!   random seed=<s> runs=<n> mode=<direct|sim> tick=<us> latlo=<us> lathi=<us> [cache=1] [cap=<bytes>]
-//!          [steps=<n>] [stall=<ms>] out=<trace.ndjson>
+//!          [steps=<n>] [stall=<ms>] [exitcrash=<percent>] out=<trace.ndjson>
 //!       seeded random scenarios (several rings and files, deep queues, full-SQ
 //!       pushes, cancels of in-flight / matured / completed / unknown entries,
 //!       partial and late drains, closed files, unsupported flags, dropped
 //!       rings, crashes followed by a bounce).  mode=sim runs the consumer as
 //!       the software of a one-host `turmoil::Sim` (crash = Sim::crash +
-//!       Sim::bounce, AsyncFd::readable loops); stall=<ms> makes the controller
+//!       Sim::bounce, AsyncFd::readable loops; with probability exitcrash% (default 50) the
+//!       software first parks its handles outside the task and returns Ok(()) by itself, the
+//!       host is crashed and bounced afterwards and the new incarnation keeps draining the old
+//!       ring handles); stall=<ms> makes the controller
 //!       thread sleep in wall-clock time between two steps.
 //!   script in=<script.json> out=<trace.ndjson>
 //!       executes a hand-written command list (corpus witnesses).
@@ -73,6 +76,8 @@ enum Cmd {
     Drain { r: usize },
     /// (sim mode) AsyncFd::readable().await on the ring
     Readable { r: usize },
+    /// (sim mode) the host software parks its handles outside the task and returns Ok(()) by itself
+    Exit,
 }
 
 fn bytes_of(v: &Value) -> Vec<u8> {
@@ -360,7 +365,7 @@ impl Env {
                 let (files, tfiles) = self.read_files();
                 json!({"ev":"shimw","f":f,"off":off,"bytes":bytes,"res":a,"tres":b,"files":files,"tfiles":tfiles})
             }
-            Cmd::Crash | Cmd::Drain { .. } | Cmd::Readable { .. } => unreachable!("handled by the runner"),
+            Cmd::Crash | Cmd::Drain { .. } | Cmd::Readable { .. } | Cmd::Exit => unreachable!("handled by the runner"),
         };
         rec::emit(ev.clone());
         ev
@@ -617,7 +622,7 @@ impl Direct {
                 self.env = Some(env);
                 json!({"ev":"drained"})
             }
-            Cmd::Readable { .. } => json!({"ev":"note"}),
+            Cmd::Readable { .. } | Cmd::Exit => json!({"ev":"note"}),
             Cmd::Pop { r } => {
                 let mut env = self.env.take().unwrap();
                 let v = self.entered(|| env.pop_ev(*r));
@@ -1011,8 +1016,22 @@ struct SimShared {
     finished: bool,
 }
 
-async fn puppet(p: Rc<RefCell<Persist>>, sh: Rc<RefCell<SimShared>>, notify: Rc<Notify>) -> turmoil::Result {
+type Park = Rc<RefCell<Option<Env>>>;
+
+async fn puppet(p: Rc<RefCell<Persist>>, sh: Rc<RefCell<SimShared>>, notify: Rc<Notify>, park: Park) -> turmoil::Result {
     let mut env = Env::setup(p.clone());
+    if let Some(mut old) = park.borrow_mut().take() {
+        // The previous incarnation had returned by itself before the crash and had parked its
+        // handles outside the task: the ring handles survive as zombies (the consumer may still
+        // sync / pop / drop them); the file handles are leaked, exactly as if a forgotten clone
+        // kept them open, so nothing closes the fds behind an operation that was in flight.
+        env.rings = old.take_rings();
+        env.cqs = env.rings.iter().map(|_| None).collect();
+        for s in old.files.drain(..) {
+            std::mem::forget(s.prim);
+            std::mem::forget(s.twin);
+        }
+    }
     if p.borrow().incarnation > 1 {
         // first poll after a bounce: report what the crash left
         let (files, tfiles) = env.read_files();
@@ -1046,6 +1065,11 @@ async fn puppet(p: Rc<RefCell<Persist>>, sh: Rc<RefCell<SimShared>>, notify: Rc<
                     sh.borrow_mut().busy = false;
                     ev
                 }
+                Cmd::Exit => {
+                    rec::emit(json!({"ev":"note","what":"exit"}));
+                    *park.borrow_mut() = Some(env);
+                    return Ok(());
+                }
                 _ => env.exec(&c),
             };
             sh.borrow_mut().results.push_back(v);
@@ -1071,7 +1095,7 @@ impl AsRawFd for FdOnly {
     }
 }
 
-fn random_sim(rng: &mut SmallRng, cfg: &RunCfg, steps: usize, stall_ms: u64) {
+fn random_sim(rng: &mut SmallRng, cfg: &RunCfg, steps: usize, stall_ms: u64, exit_pct: u64) {
     let mut b = turmoil::Builder::new();
     b.tick_duration(Duration::from_micros(cfg.tick_us))
         .simulation_duration(Duration::from_secs(36000))
@@ -1089,9 +1113,10 @@ fn random_sim(rng: &mut SmallRng, cfg: &RunCfg, steps: usize, stall_ms: u64) {
     let p = new_persist(cfg);
     let sh = Rc::new(RefCell::new(SimShared { cmds: VecDeque::new(), results: VecDeque::new(), busy: false, finish: false, finished: false }));
     let notify = Rc::new(Notify::new());
+    let park: Park = Rc::new(RefCell::new(None));
     {
-        let (p, sh, notify) = (p.clone(), sh.clone(), notify.clone());
-        sim.host("h", move || puppet(p.clone(), sh.clone(), notify.clone()));
+        let (p, sh, notify, park) = (p.clone(), sh.clone(), notify.clone(), park.clone());
+        sim.host("h", move || puppet(p.clone(), sh.clone(), notify.clone(), park.clone()));
     }
     // warm-up step: the software creates its files and parks on the Notify
     sim.step().expect("warm-up");
@@ -1123,7 +1148,6 @@ fn random_sim(rng: &mut SmallRng, cfg: &RunCfg, steps: usize, stall_ms: u64) {
                     crash_now = true;
                     break;
                 }
-                Cmd::Sync { r } | Cmd::Pop { r } if shd.zombie.get(r - 1).copied().unwrap_or(false) => continue, // no zombies in a Sim
                 Cmd::DropRing { r } if !shd.rings[r - 1] => continue,
                 c => {
                     // keep the guidance in step with what will be executed (results are read after the step)
@@ -1164,6 +1188,18 @@ fn random_sim(rng: &mut SmallRng, cfg: &RunCfg, steps: usize, stall_ms: u64) {
         }
         if crash_now {
             crashes += 1;
+            // variant: the software returns Ok(()) by itself first (handles parked outside the
+            // task), and only then the controller crashes the host
+            let exited = rng.random_range(0..100) < exit_pct;
+            if exited {
+                sh.borrow_mut().cmds.push_back(Cmd::Exit);
+                step(&mut sim, &mut k, &sh);
+                let mut guard = 0;
+                while sim.is_host_running("h") && guard < 5 {
+                    step(&mut sim, &mut k, &sh);
+                    guard += 1;
+                }
+            }
             sim.crash("h");
             p.borrow().twin.lock().unwrap().crash();
             {
@@ -1176,8 +1212,10 @@ fn random_sim(rng: &mut SmallRng, cfg: &RunCfg, steps: usize, stall_ms: u64) {
             sh.borrow_mut().busy = false;
             sim.bounce("h");
             shadow_update(&mut shd, &Cmd::Crash, &json!({}));
-            for z in shd.zombie.iter_mut() {
-                *z = false; // handles are gone with the software
+            if !exited {
+                for z in shd.zombie.iter_mut() {
+                    *z = false; // handles are gone with the software
+                }
             }
             // the new incarnation reports the crash image at its first poll
             step(&mut sim, &mut k, &sh);
@@ -1206,6 +1244,7 @@ fn random(args: &[String]) {
     let mode = util::arg(args, "mode").unwrap_or_else(|| "direct".into());
     let steps = util::arg_u64(args, "steps", 60) as usize;
     let stall = util::arg_u64(args, "stall", 0);
+    let exit_pct = util::arg_u64(args, "exitcrash", 50);
     let out = util::arg(args, "out").expect("out=");
     let base = RunCfg {
         tick_us: util::arg_u64(args, "tick", 1000),
@@ -1226,7 +1265,7 @@ fn random(args: &[String]) {
         let body = || {
             let mut rng = SmallRng::seed_from_u64(s);
             if mode == "sim" {
-                random_sim(&mut rng, &cfg, steps, stall);
+                random_sim(&mut rng, &cfg, steps, stall, exit_pct);
             } else {
                 random_direct(&mut rng, &cfg, steps);
             }
